@@ -1,6 +1,7 @@
 /- Line-protocol driver: one request line in, one response line out (DESIGN.md Appendix B). -/
 import Driver.Tbl
 import Driver.Parse
+import Driver.W2X
 open Driver
 
 def dispatch (line : String) : String :=
@@ -9,6 +10,7 @@ def dispatch (line : String) : String :=
   | [] => ""
   | "TBL" :: rest => tbl rest
   | "PARSE" :: rest => parseVerb rest
+  | "W2X" :: rest => w2xVerb rest
   | _ => "BADVERB"
 
 partial def loop (h : IO.FS.Stream) (out : IO.FS.Stream) : IO Unit := do
